@@ -34,3 +34,39 @@ package run
 //@        || (r.runOptions.MaxFailures > 0 && r.snapshot.FailedIterationDurations.Count > r.runOptions.MaxFailures)
 //@        || (r.runOptions.MaxFailuresRate > 0 && 100 * r.snapshot.FailedIterationDurations.Count >
 //@              r.runOptions.MaxFailuresRate * (r.snapshot.SuccessfulIterationDurations.Count + r.snapshot.FailedIterationDurations.Count + r.snapshot.DroppedIterationCount)) )
+//@
+//@ // ---- C19: the summary and progress views are built from the stored snapshot, field by field, with the verdict
+//@ // of Failed() and the error of Error(); Iterations is the sum of all three counts, IterationsStarted of the two started ones.
+//@ func (*Result).duration
+//@   props C19
+//@   modifies nothing
+//@   ensures result >= 0 || true
+//@
+//@ func (*Result).Summary
+//@   props C19
+//@   requires wfResult(r) && r.views != nil
+//@   requires r.snapshot.SuccessfulIterationDurations.Count <= 1000000000000000 && r.snapshot.FailedIterationDurations.Count <= 1000000000000000 &&
+//@            r.snapshot.DroppedIterationCount <= 1000000000000000 && r.runOptions.MaxFailuresRate <= 1000
+//@   modifies nothing
+//@   ensures [counts] result != nil && result.data.SuccessfulIterationCount == r.snapshot.SuccessfulIterationDurations.Count &&
+//@           result.data.FailedIterationCount == r.snapshot.FailedIterationDurations.Count && result.data.DroppedIterationCount == r.snapshot.DroppedIterationCount
+//@   ensures [totals] result.data.Iterations == r.snapshot.SuccessfulIterationDurations.Count + r.snapshot.FailedIterationDurations.Count + r.snapshot.DroppedIterationCount &&
+//@           result.data.IterationsStarted == r.snapshot.SuccessfulIterationDurations.Count + r.snapshot.FailedIterationDurations.Count
+//@   ensures [durations] deref(result.data.SuccessfulIterationDurations) == deref(r.snapshot.SuccessfulIterationDurations) && deref(result.data.FailedIterationDurations) == deref(r.snapshot.FailedIterationDurations)
+//@   ensures [verdict] result.data.Failed <==> ( len(r.errors) > 0
+//@        || (!r.runOptions.IgnoreDropped && r.snapshot.DroppedIterationCount > 0)
+//@        || (r.runOptions.MaxFailures == 0 && r.runOptions.MaxFailuresRate == 0 && r.snapshot.FailedIterationDurations.Count > 0)
+//@        || (r.runOptions.MaxFailures > 0 && r.snapshot.FailedIterationDurations.Count > r.runOptions.MaxFailures)
+//@        || (r.runOptions.MaxFailuresRate > 0 && 100 * r.snapshot.FailedIterationDurations.Count >
+//@              r.runOptions.MaxFailuresRate * (r.snapshot.SuccessfulIterationDurations.Count + r.snapshot.FailedIterationDurations.Count + r.snapshot.DroppedIterationCount)) )
+//@   ensures [error] (result.data.Error != nil) <==> len(r.errors) > 0
+//@   ensures [log-path] result.data.LogFilePath == r.LogFilePath && result.view == r.views.result
+//@
+//@ func (*Result).Progress
+//@   props C19
+//@   requires r.views != nil
+//@   modifies nothing
+//@   ensures [counts] result != nil && result.data.SuccessfulIterationCount == r.snapshot.SuccessfulIterationDurations.Count &&
+//@           result.data.FailedIterationCount == r.snapshot.FailedIterationDurations.Count && result.data.DroppedIterationCount == r.snapshot.DroppedIterationCount
+//@   ensures [period] result.data.Period == r.snapshot.Period && deref(result.data.SuccessfulIterationDurationsForPeriod) == deref(r.snapshot.SuccessfulIterationDurationsForPeriod)
+//@   ensures [view] result.view == r.views.progress
